@@ -20,8 +20,14 @@
 (* Routes are enumerated over byte-length classes of the amounts and        *)
 (* expiries of every leg, the recipient-field sizes (including sizes that   *)
 (* fill hop_data exactly, one byte less and one byte more) and blinded      *)
-(* tails; the size arithmetic of Onion decides which fit.  Every terminal   *)
-(* state prints a driver script for harness/src/bin/onion.rs.               *)
+(* tails; the size arithmetic of Onion decides which fit.  Failures are     *)
+(* enumerated over hop position x failure form (FailForms): the class bits  *)
+(* of the code, and for every BOLT 4 message that carries data the          *)
+(* magnitudes of its fixed fields (expiries / heights around the multiples  *)
+(* of 2^16 and 2^24, amounts with high bytes set, flags) x the length of    *)
+(* the channel_update (none / small / realistic / large) x malformed        *)
+(* variants; `Blame` is the design-level decision table of the sender.      *)
+(* Every terminal state prints a driver script for harness/src/bin/onion.rs *)
 (***************************************************************************)
 EXTENDS Onion, Json
 
@@ -34,8 +40,11 @@ CONSTANTS
   Metas,       \* subset of {"none","empty","small","big","fillm","fill","fillp"}
   Customs,     \* subset of {"none","small","two","fill","fillp"}
   Blindeds,    \* numbers of blinded hops tried (0 = no blinded tail)
-  CodeClasses, \* subset of {"node_temp","node_perm","perm","update","plain","recipient"}
-  DLens,       \* failure data lengths
+  CodeClasses, \* subset of {"node_temp","node_perm","perm","plain","recipient"}: codes whose data
+               \* the sender does not interpret, originated with DLens bytes of arbitrary data
+  DLens,       \* failure data lengths of those
+  ULens,       \* channel_update lengths of well-formed UPDATE messages
+  KeyHops,     \* failing positions at which every failure form is tried, besides 1, 2, N-1, N
   EncFwd, EncRecv  \* length of the encrypted recipient data of a blinded forward / receive hop
 
 VARIABLES pkt, fpkt, mode, hist
@@ -172,11 +181,13 @@ ScriptOf(n, b, ap, cp, v, r) ==
                  customs |-> [c \in 1..Len(f.customs) |->
                                 [tl |-> BigSizeLen64(f.customs[c].t), len |-> f.customs[c].len]],
                  keysend |-> f.keysend # ""],
-      op |-> [kind |-> "deliver", at |-> 0, field |-> "", code |-> "", dlen |-> 0]]
+      op |-> [kind |-> "deliver", at |-> 0, field |-> "", code |-> "", dlen |-> 0,
+              codeval |-> -1, head |-> <<>>, tail |-> 0]]
 
 -----------------------------------------------------------------------------
 NoPkt == [segs |-> <<>>, eph |-> 0, intact |-> TRUE]
-NoFpkt == [origin |-> 0, code |-> 0, len |-> 0, layers |-> <<>>, attr |-> <<>>]
+NoFpkt == [origin |-> 0, code |-> 0, len |-> 0, layers |-> <<>>, attr |-> <<>>, dlen |-> 0,
+           head |-> <<>>]
 
 RECURSIVE SegSum(_)
 SegSum(s) == IF s = <<>> THEN 0 ELSE Head(s).len + SegSum(Tail(s))
@@ -244,7 +255,8 @@ MCorrupt ==
     /\ Corrupt(pos + 1, f)
     /\ pkt' = [pkt EXCEPT !.intact = FALSE]
     /\ hist' = [hist EXCEPT !.op = [kind |-> "corrupt", at |-> pos + 1, field |-> f,
-                                    code |-> "", dlen |-> 0]]
+                                    code |-> "", dlen |-> 0, codeval |-> -1, head |-> <<>>,
+                                    tail |-> 0]]
     /\ UNCHANGED <<fpkt, mode>>
 
 (* what hop i reads out of the symbolic packet *)
@@ -276,17 +288,81 @@ MPeel ==
 
 FailLen(d) == IF 2 + d <= 256 THEN 32 + 2 + 256 + 2 ELSE 32 + 2 + 2 + d + 2
 
+-----------------------------------------------------------------------------
+(* Failure forms.  A form fixes the code, the first bytes of the data       *)
+(* (`head`: the fixed-size fields of the BOLT 4 message and, for UPDATE     *)
+(* messages, the u16 length of the channel_update) and the number of         *)
+(* arbitrary bytes that follow (`tail`).  codeval = -1: the engine draws a  *)
+(* code of class `cls`.                                                     *)
+UPD == 4096
+BE2(x) == <<x \div 256, x % 256>>
+BE4(x) == <<x \div 16777216, (x \div 65536) % 256, (x \div 256) % 256, x % 256>>
+Amt8(hi, lo) == BE4(hi) \o BE4(lo)
+
+\* expiries / heights: below and above 2^16, around 5 * 2^16, mainnet height, the library's
+\* upper bound for an expiry, all ones
+CltvMags == {BE4(700), BE4(65535), BE4(65536), BE4(327679), BE4(327680), BE4(800000),
+             BE4(499999999), <<255, 255, 255, 255>>}
+\* msat amounts: small, bits 16..31 set, bits 32..47 set, bits 48..63 set, 21e6 BTC, all ones
+AmtMags == {Amt8(0, 1000), Amt8(0, 100000000), Amt8(5, 0), <<0, 5, 0, 0, 0, 0, 0, 0>>,
+            <<29, 36, 178, 223, 172, 82, 0, 0>>, <<255, 255, 255, 255, 255, 255, 255, 255>>}
+FlagMags == {<<0, 0>>, <<0, 1>>, <<0, 2>>, <<1, 0>>, <<255, 255>>}
+
+UpdateCodes == {UPD + 7, UPD + 11, UPD + 12, UPD + 13, UPD + 14, UPD + 20, UPD + 111}
+FixedMags(c) ==
+  CASE c = UPD + 13 -> CltvMags
+    [] c \in {UPD + 11, UPD + 12} -> AmtMags
+    [] c = UPD + 20 -> FlagMags
+    [] OTHER -> {<<>>}
+RepMag(c) ==
+  CASE c = UPD + 13 -> BE4(800000)
+    [] c \in {UPD + 11, UPD + 12} -> Amt8(0, 100000000)
+    [] c = UPD + 20 -> <<0, 2>>
+    [] OTHER -> <<>>
+Form(cls, code, head, tail, fin) ==
+  [cls |-> cls, codeval |-> code, head |-> head, tail |-> tail, only_final |-> fin, basic |-> FALSE]
+
+UpdateForms ==
+  UNION {
+    {Form("update", c, m \o BE2(u), u, FALSE) : m \in FixedMags(c), u \in ULens}
+    \cup {Form("update_short", c, SubSeq(RepMag(c) \o <<0>>, 1, Len(RepMag(c)) + 1), 0, FALSE),
+          Form("update_overrun", c, RepMag(c) \o BE2(300), 10, FALSE),
+          Form("update_trailing", c, RepMag(c) \o BE2(2), 7, FALSE)}
+    : c \in UpdateCodes}
+\* messages only the recipient sends: incorrect_or_unknown_payment_details [u64:htlc_msat][u32:height],
+\* final_incorrect_cltv_expiry [u32:cltv_expiry], final_incorrect_htlc_amount [u64:amt], mpp_timeout
+RecipientForms ==
+  {Form("recipient", 16384 + 15, p[1] \o p[2], 0, TRUE) :
+     p \in {<<Amt8(0, 1000), BE4(700)>>, <<Amt8(0, 100000000), BE4(327680)>>,
+            <<<<0, 5, 0, 0, 0, 0, 0, 0>>, BE4(800000)>>,
+            <<<<29, 36, 178, 223, 172, 82, 0, 0>>, BE4(499999999)>>}}
+  \cup {Form("final_cltv", 18, m, 0, TRUE) : m \in {BE4(700), BE4(327680), BE4(499999999)}}
+  \cup {Form("final_amt", 19, m, 0, TRUE) :
+          m \in {Amt8(0, 1000), <<0, 5, 0, 0, 0, 0, 0, 0>>, <<29, 36, 178, 223, 172, 82, 0, 0>>}}
+  \cup {Form("mpp_timeout", 23, <<>>, 0, TRUE)}
+BasicForms ==
+  {[cls |-> c, codeval |-> -1, head |-> <<>>, tail |-> d, only_final |-> (c = "recipient"),
+    basic |-> TRUE] : c \in CodeClasses, d \in DLens}
+FailForms == BasicForms \cup UpdateForms \cup RecipientForms
+FormCode(f) == IF f.codeval >= 0 THEN f.codeval ELSE CodeOf(f.cls)
+
+\* every form at the key positions, the basic forms at every position
+KeyPos(k) == k \in ({1, 2, N - 1, N} \cup KeyHops)
+
 MFailAt ==
   /\ phase \in {"fwd", "received"} /\ mode.m = "ops"
-  /\ \E cls \in CodeClasses, d \in DLens :
-    LET k == pos IN
+  /\ \E f \in FailForms :
+    LET k == pos
+        dlen == Len(f.head) + f.tail IN
     /\ NoOpYet
-    /\ cls = "recipient" => k = N
-    /\ FailAt(k, CodeOf(cls), HoldOf(k))
-    /\ fpkt' = [origin |-> k, code |-> CodeOf(cls), len |-> FailLen(d), layers |-> <<k>>,
-                attr |-> <<[hop |-> k, hold |-> HoldOf(k)]>>]
-    /\ hist' = [hist EXCEPT !.op = [kind |-> "fail", at |-> k, field |-> "", code |-> cls,
-                                    dlen |-> d]]
+    /\ f.only_final => k = N
+    /\ f.basic \/ (KeyPos(k) /\ hist.fin.a = SetMin(AmtLens))
+    /\ FailAt(k, FormCode(f), HoldOf(k), dlen, f.head)
+    /\ fpkt' = [origin |-> k, code |-> FormCode(f), len |-> FailLen(dlen), layers |-> <<k>>,
+                attr |-> <<[hop |-> k, hold |-> HoldOf(k)]>>, dlen |-> dlen, head |-> f.head]
+    /\ hist' = [hist EXCEPT !.op = [kind |-> "fail", at |-> k, field |-> "", code |-> f.cls,
+                                    dlen |-> dlen, codeval |-> f.codeval, head |-> f.head,
+                                    tail |-> f.tail]]
     /\ UNCHANGED <<pkt, mode>>
 
 PushAttr(attr, i) ==
@@ -312,21 +388,46 @@ Decoded ==
   IN [ok |-> wellLayered /\ fpkt.origin = j /\ attrOK, hop |-> j,
       hold_times |-> [t \in 1..nAttr |-> fpkt.attr[t].hold]]
 
+(* The sender's decision table at the granularity of the code            *)
+(* (process_onion_failure): classes are tested in the order NODE, PERM,     *)
+(* UPDATE; an UPDATE message is searched for [u16:len] after the fixed      *)
+(* fields of its code (none for a code the sender does not know) and must   *)
+(* contain at least that many further bytes.                                *)
+LibFixedLen(code) == IF FixedLen(code) >= 0 THEN FixedLen(code) ELSE 0
+Blame(k, code, dlen, head) ==
+  LET d == LibFixedLen(code)
+      out == IF k < N THEN k + 1 ELSE k
+      updOK == /\ dlen >= d + 2 /\ Len(head) >= d + 2
+               /\ d + 2 + head[d + 1] * 256 + head[d + 2] <= dlen
+      node(p) == [nu_kind |-> "node", nu_node |-> k, nu_chan |-> 0, nu_perm |-> p,
+                  has_scid |-> TRUE, chan |-> k]
+      chan(p) == [nu_kind |-> "channel", nu_node |-> 0, nu_chan |-> out, nu_perm |-> p,
+                  has_scid |-> TRUE, chan |-> out]
+      none(s) == [nu_kind |-> "none", nu_node |-> 0, nu_chan |-> 0, nu_perm |-> FALSE,
+                  has_scid |-> s, chan |-> IF s THEN k ELSE 0]
+  IN IF NodeBit(code) THEN node(IsPerm(code))
+     ELSE IF IsPerm(code) THEN (IF k = N /\ code = 16384 + 15 THEN none(FALSE) ELSE chan(TRUE))
+     ELSE IF UpdateBit(code) THEN (IF updOK THEN chan(FALSE) ELSE node(TRUE))
+     ELSE IF k = N /\ code \in {18, 19, 23} THEN none(code \in {18, 19})
+     ELSE node(TRUE)
+
 MAttribute ==
-  LET d == Decoded IN
+  LET d == Decoded
+      bl == Blame(d.hop, fpkt.code, fpkt.dlen, fpkt.head) IN
   /\ phase = "failing" /\ d.ok
   /\ Attribute([code |-> fpkt.code, blinded |-> FALSE, hold_times |-> d.hold_times,
-                nu_kind |-> "node", nu_node |-> d.hop, nu_chan |-> 0, has_scid |-> TRUE,
-                chan |-> d.hop, perm |-> (d.hop = N /\ IsPerm(fpkt.code))])
+                nu_kind |-> bl.nu_kind, nu_node |-> bl.nu_node, nu_chan |-> bl.nu_chan,
+                nu_perm |-> bl.nu_perm, has_scid |-> bl.has_scid, chan |-> bl.chan,
+                perm |-> (d.hop = N /\ IsPerm(fpkt.code))])
   /\ UNCHANGED <<pkt, fpkt, mode, hist>>
 
 MFulfill ==
   /\ phase = "received" /\ mode.m = "ops" /\ NoOpYet
   /\ FulfillAt(N, HoldOf(N))
   /\ fpkt' = [origin |-> N, code |-> 0, len |-> 0, layers |-> <<N>>,
-              attr |-> <<[hop |-> N, hold |-> HoldOf(N)]>>]
+              attr |-> <<[hop |-> N, hold |-> HoldOf(N)]>>, dlen |-> 0, head |-> <<>>]
   /\ hist' = [hist EXCEPT !.op = [kind |-> "fulfill", at |-> N, field |-> "", code |-> "",
-                                  dlen |-> 0]]
+                                  dlen |-> 0, codeval |-> -1, head |-> <<>>, tail |-> 0]]
   /\ UNCHANGED <<pkt, mode>>
 
 MFulfillWrap ==
